@@ -46,7 +46,7 @@ type workResult struct {
 }
 
 func opts(s *Scenario) sched.Opts {
-	return sched.Opts{Fine: s.Fine, StepCap: s.StepCap, Reverse: s.Reverse}
+	return sched.Opts{Fine: s.Fine, AfterRelease: s.AfterRelease, StepCap: s.StepCap, Reverse: s.Reverse}
 }
 
 // worker serves work items from stdin.
